@@ -4,11 +4,13 @@ package main
 // and the reference model, and states what it expects (DESIGN appendix B).
 
 import (
+	"errors"
 	"fmt"
 	"math"
 	"sort"
 	"strconv"
 	"strings"
+	"time"
 
 	at "github.com/DanielSvub/anytype"
 	"verif.local/simrt"
@@ -88,6 +90,15 @@ func rejectedValue(d drawer) any {
 }
 
 // ---- step framing ---------------------------------------------------------------------------------
+
+// key arguments that are not strings although they can render themselves as text
+type stringerKey struct{ s string }
+
+func (k stringerKey) String() string { return k.s }
+
+type textKey struct{ s string }
+
+func (k textKey) MarshalText() ([]byte, error) { return []byte(k.s), nil }
 
 func (h *Hist) begin(op string, owners ...string) {
 	h.step++
@@ -1846,7 +1857,10 @@ func opSet(h *Hist) {
 			switch fault {
 			case 2:
 				// values that are clearly not strings (a named string type is left out: whether it counts as a string key is not stated)
-				bad := []any{42, []byte(key), 'x', nil, &key, 1.5, true, []string{key}, struct{ s string }{key}, int64(7)}[h.d.Draw("bad-key", 10)]
+				// (… but values that merely know a textual form of themselves are not strings: Stringers, errors, text marshalers, the library's own containers)
+				bads := []any{42, []byte(key), 'x', nil, &key, 1.5, true, []string{key}, struct{ s string }{key}, int64(7),
+					stringerKey{key}, &stringerKey{key}, time.Duration(5), errors.New(key), textKey{key}, []rune(key), at.NewList(key), at.NewObject(), [1]string{key}, uint8(65)}
+				bad := bads[h.d.Draw("bad-key", len(bads))]
 				args = append(args, bad, gv)
 				desc = append(desc, fmt.Sprintf("%T(non-string key)", bad))
 				continue
